@@ -791,6 +791,60 @@ func c15Ggqlgen(c *core.Ctx, bases []*sgen.Schema) {
 		}
 		c.Outcome("ggqlgen-e-ok")
 	}
+	// the same together with -s <dir> (stub files are written as well): what -w rewrites and -e embeds is still the schema
+	for i, b := range bases {
+		stubs := filepath.Join(dir, fmt.Sprintf("stubs%d", i))
+		_ = os.MkdirAll(stubs, 0o755)
+		for _, flag := range []string{"-w", "-e"} {
+			file := filepath.Join(dir, fmt.Sprintf("st%d%s.graphql", i, flag))
+			dest := filepath.Join(dir, fmt.Sprintf("st%d.go", i))
+			if err := os.WriteFile(file, []byte(b.SDL()), 0o644); err != nil {
+				continue
+			}
+			c.Eval()
+			c.R.Distinct++
+			c.Nontrivial()
+			args := []string{"-s", stubs, "-p", "x", "-w", file}
+			if flag == "-e" {
+				args = []string{"-s", stubs, "-p", "x", "-e", file + ":" + dest + ":SDL", file}
+			}
+			out, err := exec.Command(bin, args...).CombinedOutput()
+			detail := map[string]interface{}{"schema": fmt.Sprintf("base S%d", i), "tool": "ggqlgen -s <dir> " + flag, "output": string(out)}
+			attrs := map[string]string{"flag": "-s " + flag}
+			if err != nil {
+				attrs["what"] = "tool-failed"
+				c.Violation("ggqlgen", attrs, detail)
+				continue
+			}
+			text := ""
+			if flag == "-w" {
+				rw, _ := os.ReadFile(file)
+				text = string(rw)
+			} else {
+				goSrc, _ := os.ReadFile(dest)
+				first, last := strings.IndexByte(string(goSrc), '`'), strings.LastIndexByte(string(goSrc), '`')
+				if first >= 0 && last > first {
+					text = string(goSrc[first+1 : last])
+				}
+			}
+			detail["written"] = text
+			l := loadSDL(text)
+			if l.err != nil || l.pi != nil {
+				detail["diff"] = fmt.Sprint(l.err)
+				attrs["what"] = "rewritten-file-refused"
+				c.Violation("ggqlgen", attrs, detail)
+				continue
+			}
+			back, err := sgen.FromRoot(l.root, b.DirectiveNames())
+			if err != nil || back.Canonical(sgen.CanonOpts{}) != normalizeDescs(b).Canonical(sgen.CanonOpts{}) {
+				detail["diff"] = "what the tool wrote defines a different schema"
+				attrs["what"], attrs["model"] = "schema-changed", c15ImplicitModel(b, back)
+				c.Violation("ggqlgen", attrs, detail)
+				continue
+			}
+			c.Outcome("ggqlgen-with-stubs-ok")
+		}
+	}
 	// two files in one run: one that is only read (a dependency), one that is rewritten / embedded - whichever is which and in
 	// whichever order they are given, the two files together still define the schema they defined before
 	const fileA = "type Query {\n  q: User\n}\n\ntype User {\n  name: String @auth\n}\n\ndirective @auth on FIELD_DEFINITION\n"
